@@ -1,7 +1,7 @@
 ------------------------------ MODULE DecTest ------------------------------
 (* Self-test of Dec.tla against cases computed by Python's exact arithmetic *)
 (* (fractions / decimal).  Run by `./check setup` and by every numeric check.*)
-EXTENDS Dec, Json, IOUtils, TLC
+EXTENDS Hydraulics, Json, IOUtils
 VARIABLES i, bad
 Cases == JsonDeserialize(IOEnv.CASES)
 Check(c) ==
@@ -11,6 +11,8 @@ Check(c) ==
     [] c.op = "mul"  -> Eq(Mul(x, y), Num(c.z))
     [] c.op = "cmp"  -> Cmp(x, y) = c.r
     [] c.op = "pow"  -> PowCert(x, c.p, c.q, y, c.k) = c.ok
+    [] c.op = "const" -> Close(x, CASE c.name = "Pi2G" -> Pi2G [] c.name = "Pi4" -> Pi4 [] c.name = "Q2Pow" -> Q2Pow
+                                       [] c.name = "Qtol" -> Qtol [] c.name = "TwoG" -> TwoG, Zero, Num(c.y))
     [] c.op = "rclose" -> RClose(x, RDiv(RDec(y), RDec(Num(c.z))), Num(c.atol), Num(c.rtol)) = c.ok
 Init == i = 0 /\ bad = FALSE
 Next == i < Len(Cases) /\ i' = i + 1 /\ bad' = ~Check(Cases[i + 1])
